@@ -97,38 +97,38 @@ type AttrView struct {
 }
 
 type AssertionView struct {
-	Node                   *Node
-	ID, IssueInstant       string
-	Version                string
-	Issuer                 string
-	HasSubject             bool
-	NameID, NameIDFormat   string
-	HasNameID              bool
-	SCDInResponseTo        string
-	SCDRecipient           string
-	SCDNotOnOrAfter        string
-	HasConditions          bool
+	Node                    *Node
+	ID, IssueInstant        string
+	Version                 string
+	Issuer                  string
+	HasSubject              bool
+	NameID, NameIDFormat    string
+	HasNameID               bool
+	SCDInResponseTo         string
+	SCDRecipient            string
+	SCDNotOnOrAfter         string
+	HasConditions           bool
 	NotBefore, NotOnOrAfter string
-	Audiences              []string
-	Attrs                  []AttrView
-	NAttrStatements        int
-	AuthnInstant           string
-	SessionIndex           string
-	NSignatures            int
+	Audiences               []string
+	Attrs                   []AttrView
+	NAttrStatements         int
+	AuthnInstant            string
+	SessionIndex            string
+	NSignatures             int
 }
 
 type MsgView struct {
-	Root                                *Node // the SAML protocol element (Response / LogoutResponse)
-	Kind                                string // local name
-	ID, InResponseTo, Destination       string
-	HasInResponseTo                     bool
-	IssueInstant, Version               string
-	Issuer                              string
-	HasIssuer                           bool
-	StatusCode, StatusMessage           string
-	NStatus                             int
-	Assertions                          []*AssertionView
-	Success                             bool
+	Root                          *Node  // the SAML protocol element (Response / LogoutResponse)
+	Kind                          string // local name
+	ID, InResponseTo, Destination string
+	HasInResponseTo               bool
+	IssueInstant, Version         string
+	Issuer                        string
+	HasIssuer                     bool
+	StatusCode, StatusMessage     string
+	NStatus                       int
+	Assertions                    []*AssertionView
+	Success                       bool
 }
 
 type Reply struct {
